@@ -353,7 +353,7 @@ func c20Jobs(tier string) []*SeqJob {
 		cl, det := guard(func() (string, string) { a, b, _ := run(path, seq); return a, b })
 		return c20StripPos(cl), det
 	}
-	return []*SeqJob{c20ConstructorJob(), j}
+	return []*SeqJob{c20ConstructorJob(), j, c20BucketPairsJob(tier)}
 }
 
 func seqNames(specs []c20Spec, seq []int) []string {
@@ -447,4 +447,104 @@ func c20StripPos(cl string) string {
 		return cl[len("histogram-0-of-sequence: "):]
 	}
 	return cl
+}
+
+// c20BucketPairsJob: the exported BucketPairs (what reporters call on the bucket set a scope hands them - the
+// caller's own slice) on every bound sequence up to a length, value and duration: the pairs tile the line in
+// ascending order and the slice that was passed in is bit for bit what it was (also after a second call).
+func c20BucketPairsJob(tier string) *SeqJob {
+	L := tierInt(tier, 4, 5)
+	va, da := c03ValueAlphabet(), c03DurationAlphabet()
+	run := func(kind string, idx []int) (string, string) {
+		if kind == "value" {
+			spec := make([]float64, len(idx))
+			for i, k := range idx {
+				spec[i] = va[k]
+			}
+			arg := tally.ValueBuckets(append([]float64{}, spec...))
+			for call := 0; call < 2; call++ {
+				pairs := tally.BucketPairs(arg)
+				for i := range spec {
+					if math.Float64bits(arg[i]) != math.Float64bits(spec[i]) {
+						return "caller-slice-modified", fmt.Sprintf("BucketPairs changed the slice it was given: %v -> %v", spec, []float64(arg))
+					}
+				}
+				var lo, hi []float64
+				for _, p := range pairs {
+					lo, hi = append(lo, p.LowerBoundValue()), append(hi, p.UpperBoundValue())
+				}
+				if cl, d := valueLayoutCheck(lo, hi, spec); cl != "" {
+					return "pairs-" + cl, fmt.Sprintf("call %d: %s", call, d)
+				}
+			}
+			return "", ""
+		}
+		spec := make([]time.Duration, len(idx))
+		for i, k := range idx {
+			spec[i] = da[k]
+		}
+		arg := tally.DurationBuckets(append([]time.Duration{}, spec...))
+		for call := 0; call < 2; call++ {
+			pairs := tally.BucketPairs(arg)
+			for i := range spec {
+				if arg[i] != spec[i] {
+					return "caller-slice-modified", fmt.Sprintf("BucketPairs changed the slice it was given: %v -> %v", spec, []time.Duration(arg))
+				}
+			}
+			var lo, hi []time.Duration
+			for _, p := range pairs {
+				lo, hi = append(lo, p.LowerBoundDuration()), append(hi, p.UpperBoundDuration())
+			}
+			if cl, d := durationLayoutCheck(lo, hi, spec); cl != "" {
+				return "pairs-" + cl, fmt.Sprintf("call %d: %s", call, d)
+			}
+		}
+		return "", ""
+	}
+	j := &SeqJob{Property: "C20", Name: "bucket-pairs-of-every-bound-sequence", Shards: tierInt(tier, 2, 4)}
+	j.Run = func(ctx *SeqCtx) {
+		n := 0
+		for _, kind := range []string{"value", "duration"} {
+			kind := kind
+			enumSeqs(len(va), L, func(seq []int) bool {
+				n++
+				if len(seq) == 0 || !ctx.Mine(n) {
+					return true
+				}
+				if ctx.Expired() {
+					return false
+				}
+				idx := append([]int{}, seq...)
+				cl, det := guard(func() (string, string) { return run(kind, idx) })
+				ops := []string{kind}
+				for _, k := range idx {
+					ops = append(ops, fmt.Sprint(k))
+				}
+				ctx.Case(2, len(idx) > 1, func() string { return fmt.Sprint(ops) })
+				ctx.State(fmt.Sprint(ops))
+				if cl != "" {
+					ctx.Fail(cl, det, ops)
+					return ctx.viol == nil
+				}
+				return true
+			})
+			if ctx.viol != nil {
+				return
+			}
+		}
+		ctx.Alphabet(fmt.Sprintf("value bounds %v", va), fmt.Sprintf("duration bounds %v", da))
+		if !ctx.st.TimedOut {
+			ctx.DepthDone(L)
+		}
+	}
+	j.Replay = func(ops []string) (string, string) {
+		var idx []int
+		for _, o := range ops[1:] {
+			var k int
+			fmt.Sscan(o, &k)
+			idx = append(idx, k)
+		}
+		return guard(func() (string, string) { return run(ops[0], idx) })
+	}
+	return j
 }
